@@ -25,6 +25,8 @@ def processLine (line : String) : String :=
     let out :=
       match kind with
       | "xr" => handleXr kv
+      | "xc" => handleXc kv
+      | "xa" => handleXa kv
       | "xo" => handleXo kv
       | "xw" => handleXw kv
       | "fl" => handleFl kv
